@@ -370,6 +370,23 @@ func rotlConst(v ssa.Value) (ssa.Value, int64, bool) {
 	return nil, 0, false
 }
 
+// rotlNested: rotations of rotations compose exactly — rot(rot(x,a),b) = rot(x,(a+b) mod 32); returns the innermost
+// rotated value and the total amount.
+func rotlNested(v ssa.Value) (ssa.Value, int64, bool) {
+	x, amt, ok := rotlConst(v)
+	if !ok {
+		return nil, 0, false
+	}
+	for i := 0; i < 8; i++ {
+		y, a, ok2 := rotlConst(x)
+		if !ok2 {
+			break
+		}
+		x, amt = y, (amt+a)%32
+	}
+	return x, amt, true
+}
+
 var rotlHelperCache = map[*ssa.Function]bool{}
 
 // isRotlHelper: f(x, i) returns x<<(i[%32]) | x>>(32-i[%32]) on a 32-bit type.
@@ -468,8 +485,12 @@ func c05KeySchedule(c *Ctx, ks map[*ssa.Function]bool, sboxT *kTable) {
 		for _, l := range leaves {
 			if l == ssa.Value(f.Params[0]) {
 				ident++
-			} else if x, amt, ok := rotlConst(l); ok && x == ssa.Value(f.Params[0]) {
-				rots = append(rots, amt)
+			} else if x, amt, ok := rotlNested(l); ok && x == ssa.Value(f.Params[0]) {
+				if amt == 0 {
+					ident++
+				} else {
+					rots = append(rots, amt)
+				}
 			} else {
 				other++
 			}
